@@ -78,13 +78,25 @@ const (
 	EndOfAuditLogChainMessage = "End of current audit log chain"
 )
 
+// splitIntegritySuffix cuts a plaintext/cef log line at the LAST occurrence of DataSplitToken. The formatter hooks
+// append DataSplitToken, the hex-encoded integrity check and the optional chain marker after the formatted entry,
+// and none of these can contain the token, so the last occurrence is always the appended one, whatever the
+// message and the fields of the entry contain (including the token itself).
+func splitIntegritySuffix(rawData string) ([]string, bool) {
+	index := strings.LastIndex(rawData, DataSplitToken)
+	if index < 0 {
+		return nil, false
+	}
+	return []string{rawData[:index], rawData[index+len(DataSplitToken):]}, true
+}
+
 // ParseEntry parse cef log line with next expected input example and return ParsedLogEntry:
 // CEF:0|<value>|<value>|<value>|100|<value>|1|unixTime=<value> integrity=<value> chain=<value>
 // CEF:0|<value>|<value>|<value>|100|<value>|1|unixTime=<value> integrity=<value>
 func (parser *CefLogParser) ParseEntry(rawData string) (*ParsedLogEntry, error) {
 	parsedLogEntry := &ParsedLogEntry{}
-	rawLogEntry := strings.Split(rawData, DataSplitToken)
-	if len(rawLogEntry) != 2 {
+	rawLogEntry, ok := splitIntegritySuffix(rawData)
+	if !ok {
 		return nil, ErrCefIntegrityExtract
 	}
 	parsedLogEntry.RawData = []byte(rawLogEntry[0])
@@ -114,8 +126,8 @@ func (parser *CefLogParser) ParseEntry(rawData string) (*ParsedLogEntry, error) 
 // time="<value>" level=<value> msg="<value>" version=<value> integrity=<value>
 func (parser *PlaintextLogParser) ParseEntry(rawData string) (*ParsedLogEntry, error) {
 	parsedLogEntry := &ParsedLogEntry{}
-	rawLogEntry := strings.Split(rawData, DataSplitToken)
-	if len(rawLogEntry) != 2 {
+	rawLogEntry, ok := splitIntegritySuffix(rawData)
+	if !ok {
 		return nil, ErrPlaintextIntegrityExtract
 	}
 	parsedLogEntry.RawData = []byte(rawLogEntry[0])
